@@ -14,7 +14,7 @@ class Contract:
                  transparent=False, props=(), locals=None, gen=None, hints=None, consts=None, canary=None,
                  trusted=False, note="", bind=None, known=None, pure=True, native_args=None, decreases=None,
                  ghost=None, native=True, slice=None, path_limit=None, timeout=None, native_ensures=None,
-                 bounded_only=False, assumes=(), cases=None):
+                 bounded_only=False, assumes=(), cases=None, params=None):
         self.qual = qual
         self.args = OrderedDict(args)  # name -> type string
         self.returns = returns
@@ -44,7 +44,8 @@ class Contract:
         self.native_ensures = native_ensures
         self.bounded_only = bounded_only
         self.assumes = list(assumes)
-        self.cases = cases  # extra assumptions (listed in evidence), e.g. about opaque callees
+        self.cases = cases
+        self.params = params  # parameter names of an external callee that has no source in /repo (always trusted)  # extra assumptions (listed in evidence), e.g. about opaque callees
 
     @property
     def name(self):
